@@ -2796,8 +2796,9 @@ void mmd_engine_update_metavalue_for_key(mmd_engine * e, const char * key, const
 	for (int i = 0; has_meta && i < e->metadata_stack->size; ++i) {
 		m = stack_peek_index(e->metadata_stack, i);
 
-		if (strcmp(clean, m->key) == 0) {
-			// We have a match
+		if ((start == -1) && (strcmp(clean, m->key) == 0)) {
+			// We have a match (the first one counts -- it is the one
+			// that is reported as the value of the key)
 			start = m->start;
 		} else if (start != -1) {
 			// We have already found a match
